@@ -1586,4 +1586,4 @@ def select(tier, rnd):
     p0 = [c for c in CORPUS if c["prio"] == 0]
     p1 = [c for c in CORPUS if c["prio"] == 1]
     p2 = [c for c in CORPUS if c["prio"] == 2]
-    return p0 + rnd.sample(p1, min(len(p1), 6)) + rnd.sample(p2, min(len(p2), 5))
+    return p0 + rnd.sample(p1, min(len(p1), 5)) + rnd.sample(p2, min(len(p2), 4))
